@@ -409,7 +409,26 @@ def r7_gain_profile(ctx):
     ctx.check('R7.gain-profile', f'{site(f)} refinement above centre', ok_hi, key(f, 'secant-high'),
               'the last refinement step (effective gain above the centre estimate) is not x + (G - g(x)) / slope',
               f'step/(G - g) = {r_hi.key()[:200]}')
-    ctx.need('R7.gain-profile', 3)
+    # the flat-response shortcut (and the step of the lower / upper estimates) is decided on the spread of the FIRST-ESTIMATE gain
+    # profile g1st = ripple + flat gain + DGT x scale, i.e. including the tilt contribution, not on the ripple alone
+    small = [(k, info) for k, info in ev.cond_info.items() if info[0] == 'le' and isinstance(info[2], Rat) and info[2].eq(C(1) / C(20))]
+    ok = False
+    det = ''
+    if len(small) == 1 and isinstance(small[0][1][1], Rat):
+        spread = small[0][1][1]
+        at = atoms_of(spread)
+        mx = [a for a in at.values() if a.kind == 'fn' and a.name == 'max']
+        mn = [a for a in at.values() if a.kind == 'fn' and a.name == 'min']
+        if len(mx) == 1 and len(mn) == 1 and isinstance(mx[0].args[0], Rat) and isinstance(mn[0].args[0], Rat):
+            x = mx[0].args[0]
+            names = {a.name for a in atoms_of(x).values() if a.kind == 'fld'}
+            det = vkey(x)[:160]
+            ok = x.eq(mn[0].args[0]) and {'self.interpol_gain_ripple', 'self.interpol_dgt', 'self.params.gain_flatmax'} <= names
+    ctx.check('R7.gain-profile', f'{site(f)} flat-response test', ok, key(f, 'flat-test'),
+              'the "not enough ripple" shortcut is not decided on max - min of the first-estimate gain profile (ripple + flat gain + '
+              'DGT x tilt scale): with a flat ripple but a tilted profile the refinement would be skipped and the applied gain drift '
+              'away from the effective gain', det)
+    ctx.need('R7.gain-profile', 4)
 
 
 def sign_of_ratio_is_inverse_slope(r):
